@@ -150,6 +150,11 @@ func scenarioTunnel(c *vrun.Ctx) {
 			env.seq++
 			desc := strings.Join(names, " ")
 			results := map[string][]string{}
+			attempt := 0
+		again:
+			attempt++
+			results = map[string][]string{}
+			env.seq++ // fresh resources and cache keys for every attempt
 			// pipelined: the whole sequence is written into one tunnel before the first answer is read
 			if depth > 1 && pipelineTimeouts < 6 {
 				prefix := "/s" + strconv.Itoa(env.seq) + "q"
@@ -213,6 +218,17 @@ func scenarioTunnel(c *vrun.Ctx) {
 				}
 				if tun != nil {
 					tun.Close()
+				}
+			}
+			if attempt == 1 {
+				// an exchange that ran into the read deadline is repeated once (fresh tunnel, fresh keys)
+				// before it counts: only a response that is missing twice is reported as missing
+				for _, rs := range results {
+					for _, r := range rs {
+						if strings.Contains(r, "i/o timeout") {
+							goto again
+						}
+					}
 				}
 			}
 			for i := range seq {
